@@ -33,6 +33,7 @@ identifier = re.compile(r'[_a-z]\w*$', re.I).match
 def trees(draw, max_depth=3, unique_stems=True, bytecode=False):
     """returns a dir node {'name', 'dirs': [...], 'files': [names], 'init': bool}"""
     counter = [0]
+    py_stems = []      # stems of source files generated so far (parents before children, as the walk visits them)
 
     def stem(kind):
         counter[0] += 1
@@ -53,7 +54,16 @@ def trees(draw, max_depth=3, unique_stems=True, bytecode=False):
                 s = stem(base)
                 shape = draw(st.sampled_from(['py+pyc', 'pyc', 'pyo', 'py+pyo', 'pyc+pyo', 'pyc.bak', 'PYC', 'py+pyc+pyo',
                                                'dotpyc', 'pyc-dir', 'pycx', 'txt', 'py+pyc+orig', 'py+pyo+backups',
-                                               'pyc+orig']))
+                                               'pyc+orig', 'namesake', 'namesake', 'init-pyc']))
+                if shape == 'namesake':
+                    # bytecode whose stem is the name of a source file in *another* directory (a parent, an earlier
+                    # sibling): "beside it" means the same directory
+                    if py_stems:
+                        out.append(draw(st.sampled_from(py_stems)) + draw(st.sampled_from(['.pyc', '.pyo'])))
+                    continue
+                if shape == 'init-pyc':
+                    out.append('__init__' + draw(st.sampled_from(['.pyc', '.pyo'])))
+                    continue
                 out += {
                     'py+pyc': [s + '.py', s + '.pyc'], 'pyc': [s + '.pyc'], 'pyo': [s + '.pyo'],
                     'py+pyo': [s + '.py', s + '.pyo'], 'pyc+pyo': [s + '.pyc', s + '.pyo'], 'pyc.bak': [s + '.pyc.bak'],
@@ -66,6 +76,8 @@ def trees(draw, max_depth=3, unique_stems=True, bytecode=False):
                 }[shape]
                 if shape == 'pyc-dir':
                     out.append(('dir', s + '.pyc'))
+            py_stems.extend(f[:-3] for f in out if isinstance(f, str) and f.endswith('.py'))
+            py_stems.append('__init__')
         return out
 
     def node(name, depth):
